@@ -28,13 +28,23 @@ T == Traces[tid]
 \* the tree the library evaluated: the deep copy Config makes of the merged tree (both are logged)
 LSource == NodeOfJ(T.tree)
 LTree == NodeOfJ(T.copytree)
+RECURSIVE SDofJ(_)
+SDofJ(j) == [j EXCEPT !.md = {<<j.md[x][1], j.md[x][2]>> : x \in DOMAIN j.md},
+                      !.ch = [i \in 1..Len(j.ch) |-> <<j.ch[i][1], SDofJ(j.ch[i][2])>>]]
+HasDocs == "docs" \in DOMAIN T
+LDocs    == IF HasDocs THEN [i \in DOMAIN T.docs |-> SDofJ(T.docs[i])] ELSE <<>>
+LSafes   == IF HasDocs THEN [i \in DOMAIN T.safes |-> T.safes[i]] ELSE <<>>
+\* where the documents were logged the specification starts from ITS OWN merged tree (so that its verdict is about
+\* the specification), otherwise from the library's merged tree
+MSource == IF HasDocs THEN FoldDocs([i \in 1..Len(LDocs) |-> Parse(LDocs[i], LSafes[i])]) ELSE LSource
+MTree == IF IsErr(MSource) THEN LTree ELSE DeepCopy(MSource)
 
 TInit == EInit /\ tid \in 1..Len(Traces)
 \* config.py:38: the !required check comes before anything is evaluated
 HasRequired(t) == \E p \in PathsOf(t) : At(t, p).k = "required"
 TRequired == /\ status = "idle" /\ HasRequired(LSource) /\ status' = "RequiredError"
              /\ UNCHANGED <<work, stack, cache, heap, calls, evlog, reqsafe, tid>>
-TStart == status = "idle" /\ ~HasRequired(LSource) /\ StartOn(LTree) /\ UNCHANGED tid
+TStart == status = "idle" /\ ~HasRequired(LSource) /\ StartOn(MTree) /\ UNCHANGED tid
 TStep == EStep /\ UNCHANGED tid
 TNext == TRequired \/ TStart \/ TStep
 
@@ -44,11 +54,6 @@ LIds     == {<<T.ids[i][1], T.ids[i][2]>> : i \in DOMAIN T.ids}
 LData    == PlainOfJ(T.data)
 LCalls   == [i \in DOMAIN T.calls |-> [p |-> T.calls[i][1], fn |-> T.calls[i][2],
                                        args |-> [a \in DOMAIN T.calls[i][3] |-> <<T.calls[i][3][a][1], PlainOfJ(T.calls[i][3][a][2])>>]]]
-RECURSIVE SDofJ(_)
-SDofJ(j) == [j EXCEPT !.md = {<<j.md[x][1], j.md[x][2]>> : x \in DOMAIN j.md},
-                      !.ch = [i \in 1..Len(j.ch) |-> <<j.ch[i][1], SDofJ(j.ch[i][2])>>]]
-LDocs    == [i \in DOMAIN T.docs |-> SDofJ(T.docs[i])]
-LSafes   == [i \in DOMAIN T.safes |-> T.safes[i]]
 LStages  == [i \in DOMAIN T.stages |-> NodeOfJ(T.stages[i])]
 MCallsData == [i \in 1..Len(calls) |-> [p |-> calls[i].p, fn |-> calls[i].fn,
                                          args |-> [a \in 1..Len(calls[i].args) |-> <<calls[i].args[a][1], ValData(heap, calls[i].args[a][2])>>]]]
@@ -66,7 +71,8 @@ MCallPaths == [i \in 1..Len(calls) |-> calls[i].p]
 
 \* first clause on which library and specification disagree ("ok" if none)
 Compare ==
-    IF DeepCopy(LSource) # LTree THEN "copy"          \* the specification's deepcopy vs. copy.deepcopy (flags included)
+    IF ~IsErr(MSource) /\ MSource # LSource THEN "tree"     \* the merged source trees differ (flags included)
+    ELSE IF DeepCopy(LSource) # LTree THEN "copy"          \* the specification's deepcopy vs. copy.deepcopy (flags included)
     ELSE IF status # LStatus THEN "status"
     ELSE IF status # "done" THEN "ok"
     ELSE IF MData # LData THEN "data"
@@ -96,7 +102,7 @@ ModelVerdict ==
       [] Prop = "C10" -> IF /\ C10_AtMostOnce(calls) /\ C10_OnlyExisting(work, calls) /\ C10_ExactlyOnce(work, status, calls)
                             /\ C10_OrderFree(work, status, MData) /\ C10_SameObject(work, status, MIds) THEN "holds" ELSE "violated"
       [] Prop = "C11" -> IF C11_Mirror(work, status, MData) THEN "holds" ELSE "violated"
-      [] Prop = "C07" -> IF (C07_InDomain(LDocs, LSafes) => C07_TaintSound(DeepCopy(LSource), LDocs, LSafes))
+      [] Prop = "C07" -> IF (C07_InDomain(LDocs, LSafes) => C07_TaintSound(work, LDocs, LSafes))
                             /\ C07_EvalHolds(work, status, MCallsData, LDocs, LSafes) THEN "holds" ELSE "violated"
       [] OTHER -> "none"
 
